@@ -1,5 +1,6 @@
 import Propka.Model.Pipeline
 import Propka.Model.Program
+import Propka.Model.Output
 import Propka.Model.PdbDriver
 import Propka.Model.ScoringDriver
 import Propka.Model.GroupsDriver
@@ -118,9 +119,14 @@ def handle (args : List String) : String :=
           | some gs => if gs.isEmpty then "-" else ";".intercalate (gs.map fun g =>
               "|".intercalate [tohexS g.label, tohexS g.type, fbits g.acc.pka, fbits g.nv, fbits g.acc.evol, fbits g.acc.eloc, fbits g.buried,
                 showD g.acc.sc, showD g.acc.bb, showD g.acc.cb])
+        let sections := match Program.averageRun confs, Pdb.parse po lines with
+          | some gs, .ok recs =>
+            tohexS (Output.determinantRows removePen Gen.Cfg.f_write_out_order (Output.chainsOf (recs.map Program.core)) gs) ++ "#" ++
+            tohexS (Output.summaryRows removePen Gen.Cfg.f_write_out_order gs)
+          | _, _ => "-#-"
         "&".intercalate ((confs.map fun c => match c.2 with
           | none => c.1 ++ "@valueerror"
-          | some (r, out) => c.1 ++ "@" ++ showPrep r ++ "#" ++ (if out.isEmpty then "-" else ";".intercalate (out.map showOut))) ++ ["AVR@" ++ avr])
+          | some (r, out) => c.1 ++ "@" ++ showPrep r ++ "#" ++ (if out.isEmpty then "-" else ";".intercalate (out.map showOut))) ++ ["AVR@" ++ avr, "TXT@" ++ sections])
   | _ => "bad-op"
 
 end Propka.Pipe
